@@ -107,7 +107,21 @@ pub fn any_rt<T: Message + Default + PartialEq + TypeUrl>(sample: &[u8], all_url
                 return Err(format!("from_any accepted mismatched type url {u}"));
             }
         }
-        for u in ["", "cosmos.bank.v1beta1.MsgSend", &T::TYPE_URL[1..], &format!("{} ", T::TYPE_URL), &T::TYPE_URL.to_uppercase()] {
+        for u in [
+            "",
+            "cosmos.bank.v1beta1.MsgSend",
+            &T::TYPE_URL[1..],
+            &format!("{} ", T::TYPE_URL),
+            &T::TYPE_URL.to_uppercase(),
+            // the right name behind another host or path (what google's Any resolvers would accept)
+            &format!("type.googleapis.com{}", T::TYPE_URL),
+            &format!("https://example.org{}", T::TYPE_URL),
+            &format!("/{}", T::TYPE_URL),
+            &format!("/cosmos.bank.v1beta1.MsgSend{}", T::TYPE_URL),
+            &format!("{}/", T::TYPE_URL),
+            &format!("{}x", T::TYPE_URL),
+            &T::TYPE_URL[..T::TYPE_URL.len() - 1],
+        ] {
             let other = prost_types::Any { type_url: u.to_string(), value: any.value.clone() };
             if u != T::TYPE_URL && T::from_any(&other).is_ok() {
                 return Err(format!("from_any accepted mismatched type url {u:?}"));
